@@ -17,8 +17,8 @@ a cosine/sine pair.  Theorems whose subject lives in `Generated.C18` are re-chec
 source on every run.
 
 NOT proved here (trusted / compared only): that qhull's `find_simplex` decides membership in the polygon spanned by
-the generated vertices (so "the rasterised mask is the slab hexagon" is compared, not proved); keystone apertures
-(compared only); area up to rasterisation (numerical).
+the generated vertices (so "the rasterised mask is the slab hexagon" is compared, not proved); keystone windows and
+spider cut-outs (compared only); area up to rasterisation (numerical).
 -/
 set_option linter.unusedTactic false
 set_option linter.unreachableTactic false
@@ -589,6 +589,93 @@ theorem keystone_rings_disjoint (outerPrev gap width width' gap' lo hi lo' hi' r
     linarith
 
 end keystone
+
+/-! ## session 3: keystone wrap-around branches and first-claim ownership -/
+section keystone_wrap
+variable {K : Type} [Field K] [LinearOrder K] [IsStrictOrderedRing K]
+
+/-- the angular mask of a keystone WITH its two wrap-around branches (`if lo < π < hi … elif lo ≥ π …`), translated
+from the current source, is the model's -/
+theorem gen_keystone_wrap (pi lo hi t : K) : Generated.C18.keyAng pi lo hi t ↔ keyAng pi lo hi t := by
+  first
+    | exact Iff.rfl
+    | (simp only [Generated.C18.keyAng, Model.C18.keyAng]; tauto)
+
+/-- for every polar angle `t ∈ [−π, π]` (the range of `arctan2`) and EVERY interval `(lo, hi)`, the three-branch angular
+mask of the source says exactly "`t` or `t + 2π` lies in `(lo, hi)`": the wrap-around logic is membership modulo one turn -/
+theorem keystone_wrap_iff (pi lo hi t : K) (ht : -pi ≤ t ∧ t ≤ pi) :
+    Generated.C18.keyAng pi lo hi t ↔ (lo < t ∧ t < hi) ∨ (lo < t + 2 * pi ∧ t + 2 * pi < hi) := by
+  rw [gen_keystone_wrap]
+  obtain ⟨h1, h2⟩ := ht
+  simp only [keyAng, gt_iff_lt, ge_iff_le]
+  constructor
+  · rintro (⟨⟨a, b⟩, (c | c)⟩ | ⟨_, (⟨⟨a, b⟩, c, d⟩ | ⟨_, c⟩)⟩)
+    · exact Or.inl c
+    · exact Or.inr ⟨by linarith, by linarith⟩
+    · exact Or.inr ⟨by linarith, by linarith⟩
+    · exact Or.inl c
+  · rintro (⟨a, b⟩ | ⟨a, b⟩)
+    · by_cases c1 : lo < pi ∧ pi < hi
+      · exact Or.inl ⟨c1, Or.inl ⟨a, b⟩⟩
+      · exact Or.inr ⟨c1, Or.inr ⟨fun hc => by linarith [hc.1], a, b⟩⟩
+    · by_cases c1 : lo < pi ∧ pi < hi
+      · exact Or.inl ⟨c1, Or.inr (by linarith)⟩
+      · refine Or.inr ⟨c1, Or.inl ⟨⟨?_, by linarith⟩, by linarith, by linarith⟩⟩
+        by_contra hc
+        exact c1 ⟨not_le.mp hc, by linarith⟩
+
+/-- two keystones of one ring whose angular intervals follow each other round the circle (`hi₁ ≤ lo₂` and
+`hi₂ ≤ lo₁ + 2π`: the second may run through the branch cut at `±π` and come back to the first) have no polar angle in
+common — also when either of them takes a wrap-around branch -/
+theorem keystone_wrap_disjoint (pi lo1 hi1 lo2 hi2 t : K) (hpi : 0 < pi) (ht : -pi ≤ t ∧ t ≤ pi)
+    (h12 : hi1 ≤ lo2) (h21 : hi2 ≤ lo1 + 2 * pi) :
+    ¬ (Generated.C18.keyAng pi lo1 hi1 t ∧ Generated.C18.keyAng pi lo2 hi2 t) := by
+  rw [keystone_wrap_iff _ _ _ _ ht, keystone_wrap_iff _ _ _ _ ht]
+  rintro ⟨(⟨a, b⟩ | ⟨a, b⟩), (⟨c, d⟩ | ⟨c, d⟩)⟩ <;> linarith
+
+/-- non-vacuity: a keystone straddling the cut (`lo = 3 < π ≈ 22/7 < hi = 4`) owns an angle just below `−π + 1` through the
+wrap-around branch, and its follower `(4, 5)` does not -/
+example : Generated.C18.keyAng (22 / 7 : ℚ) 3 4 (-3) ∧ ¬ Generated.C18.keyAng (22 / 7 : ℚ) 4 5 (-3) := by
+  rw [keystone_wrap_iff _ _ _ _ (by norm_num), keystone_wrap_iff _ _ _ _ (by norm_num)]
+  norm_num
+
+end keystone_wrap
+
+/-- the tail of the per-segment loop of `_composite_hexagonal_aperture` (`local_mask &= ~mask[window]`,
+`local_masks.append`, `mask[window] |= local_mask`), translated per sample, is the model's first-claim step -/
+theorem gen_claim (prev m : Bool) : Generated.C18.claimStep prev m = claimStep prev m := by
+  cases prev <;> cases m <;> rfl
+
+/-- invariant of the construction loop at one sample, for ANY number of segments and any polygon masks (overlapping,
+touching, or apart): the aperture mask ends as the OR of everything, and the stored local masks contain exactly one
+`true` if some segment covers the sample (and the mask was clear before) and none otherwise -/
+theorem claims_invariant (ms : List Bool) (prev : Bool) :
+    (claims Generated.C18.claimStep prev ms).2 = (prev || ms.any id) ∧
+    (claims Generated.C18.claimStep prev ms).1.length = ms.length ∧
+    (claims Generated.C18.claimStep prev ms).1.count true = (if (!prev && ms.any id) then 1 else 0) := by
+  induction ms generalizing prev with
+  | nil => cases prev <;> simp [claims]
+  | cons m ms ih =>
+    have h := ih (Generated.C18.claimStep prev m).2
+    simp only [claims, gen_claim] at h ⊢
+    cases prev <;> cases m <;> simp_all [claimStep]
+
+/-- NO sample belongs to two segments of a composite hexagonal aperture — for every ring count, exclusion set, gap ≥ 0
+(touching hexagons included) and whatever the polygon rasteriser returns: among the stored local masks at most one is set -/
+theorem claims_exclusive (ms : List Bool) : (claims Generated.C18.claimStep false ms).1.count true ≤ 1 := by
+  rw [(claims_invariant ms false).2.2]; split <;> omega
+
+/-- the aperture mask is exactly the union of the polygon masks, and a sample transmits iff EXACTLY one stored segment
+mask holds it ("every transmitting sample belongs to exactly one segment") -/
+theorem claims_union (ms : List Bool) :
+    (claims Generated.C18.claimStep false ms).2 = ms.any id ∧
+    ((claims Generated.C18.claimStep false ms).2 = true ↔ (claims Generated.C18.claimStep false ms).1.count true = 1) := by
+  obtain ⟨h1, _, h3⟩ := claims_invariant ms false
+  rw [h1, h3]
+  cases h : ms.any id <;> simp
+
+/-- three segments, the second and third both covering the sample: the second owns it -/
+example : claims Generated.C18.claimStep false [false, true, true] = ([false, true, false], true) := by decide
 
 /-! ## non-vacuity -/
 
